@@ -11,7 +11,7 @@
    crash- and hang-freedom of the real code is exercised (recover, poisoned capacity, hostile length fields,
    watchdog). *)
 From Verif Require Import Base.Bytes Model.Types Model.GoLite Model.Detect Gen.TreeData
-  Model.Zip Model.Ole Model.Mkv Model.Tar Model.Checked Proofs.GoLiteP Proofs.SafeP Proofs.CheckedP.
+  Model.Zip Model.Ole Model.Mkv Model.Tar Model.Checked Proofs.GoLiteP Proofs.SafeP Proofs.CheckedP Gen.FuncTerms Model.Detectors Proofs.TranslateP.
 
 (* the bounds analysis is sound: a term it accepts never indexes or slices outside the header *)
 Theorem C01_bounds_analysis_sound : forall p raw, safe p = true -> evalp p raw <> Panic.
@@ -42,6 +42,23 @@ Print Assumptions C01_partial_no_detector_panics.
 Theorem C01_detect_total : forall orc l x, exists p, detect_path orc l x = 0 :: p.
 Proof. exact detect_total. Qed.
 Print Assumptions C01_detect_total.
+
+(* regenerated obligation: the bodies of the loop-free function detectors, translated from the CURRENT source
+   (Gen/FuncTerms.v), equal the hand-written terms up to re-association of && / || ... *)
+Theorem C01_function_terms_are_the_source : translation_agrees = true.
+Proof. vm_compute. reflexivity. Qed.
+Print Assumptions C01_function_terms_are_the_source.
+
+(* ... hence compute the same result, Panic included, on every input ... *)
+Theorem C01_source_terms_equal_hand_terms :
+  forall name g h raw, In (name, g) gen_func_terms -> assoc name func_terms = Some h -> evalp h raw = evalp g raw.
+Proof. exact (translated_terms_equal C01_function_terms_are_the_source). Qed.
+Print Assumptions C01_source_terms_equal_hand_terms.
+
+(* ... and every translated body passes the verified bounds analysis directly *)
+Theorem C01_source_terms_guarded : forallb (fun ng => safe (snd ng)) gen_func_terms = true.
+Proof. vm_compute. reflexivity. Qed.
+Print Assumptions C01_source_terms_guarded.
 
 (* the offset-computing detectors: every index / slice expression is in bounds, whatever the length fields say *)
 Theorem C01_offset_detectors_never_panic :
